@@ -67,6 +67,10 @@ def check_driver_loop(cx: Cx, fn, model_from: List[str], rule='R-GUARD', limit: 
     """In fn: the model is built by _build_model_from_kwargs(model_cls, <kwargs param>) == model_cls(**kwargs) on every
     call, and model.execute() (one step) runs under `model.is_running() and timestep < max_timesteps` (strict)."""
     mexec = CORE + 'Model.execute'
+    kw = Sym(model_from[1])
+    want_model = App('call', (Sym(model_from[0]),), (('**', kw),))
+    want_model2 = App('new:' + CORE + 'Model', (), (('**', kw), ('<cls>', Sym(model_from[0]))))
+    wanted_models = (want_model, want_model2)
     seen_exec = 0
     ok = True
     model_terms = set()
@@ -87,14 +91,18 @@ def check_driver_loop(cx: Cx, fn, model_from: List[str], rule='R-GUARD', limit: 
                                              no_full_inline=frozenset({'_run_model_for_search', '_run_model_for_batch', '_score_model_for_search'}))):
         evs = p.events
         for i, e in enumerate(evs):
-            if e.kind == 'assign' and e.data.get('name') == 'model':
-                model_terms.add(e.data.get('value'))
             is_exec = e.kind == 'call' and not e.data.get('full_inline') and (any(t.qualname in (mexec, CORE + 'SystemManager.execute_systems') for t in e.data.get('targets', [])) or
                                             (e.data.get('target_kind') == 'unknown' and e.data.get('callee_name') == '.execute'
-                                             and e.data.get('recv') in model_terms))
+                                             and strip_versions(e.data.get('recv')) in wanted_models))
             if is_exec:
                 seen_exec += 1
                 model = e.data.get('recv')
+                # the object that is stepped: the model itself, or its scheduler
+                mt = strip_versions(model)
+                if isinstance(mt, Attr) and mt.name == 'systems' and any(t.qualname == CORE + 'SystemManager.execute_systems' for t in e.data.get('targets', [])):
+                    mt = mt.base
+                    model = mt
+                model_terms.add(mt)
                 if e.data.get('args') or e.data.get('kw'):
                     cx.violation(rule, fn.qualname, 'one-step-per-guard-test', f"{fn.name} advances the model by "
                                  f"{e.data.get('args') or e.data.get('kw')} steps between tests of the step limit: an execution can run "
@@ -146,11 +154,8 @@ def check_driver_loop(cx: Cx, fn, model_from: List[str], rule='R-GUARD', limit: 
         return
     cx.ok(rule, f"{fn.name}: model.execute() only under running and timestep < max_timesteps (strict), one step per test",
           where=cx.where(fn), function=fn.qualname, execute_events=seen_exec)
-    # fresh model per run
-    kw = Sym(model_from[1])
-    want_model = App('call', (Sym(model_from[0]),), (('**', kw),))
-    want_model2 = App('new:' + CORE + 'Model', (), (('**', kw), ('<cls>', Sym(model_from[0]))))
-    bad = [m for m in model_terms if m not in (want_model, want_model2)]
+    # fresh model per run: whatever is stepped was built in this call from the caller's class and combination
+    bad = [m for m in model_terms if m not in wanted_models]
     if not model_terms or bad:
         cx.violation('R-FRESH', fn.qualname, 'fresh-model-per-run',
                      f"{fn.name} must build its model as {model_from[0]}(**{model_from[1]}) on every run (found "
